@@ -4,10 +4,11 @@ import PsyVerif.Gen.Intrinsics
 open Proto C11
 
 /-! Line protocol for C11.
-`(acc <pinned|fixed|ideal> <stmt>)` → `none` | `(<end-location> (var kind loc nidx) ...)`
+`(acc <pinned|fixed1|fixed3|fixed|ideal> <stmt>)` → `none` | `(<end-location> (var kind loc nidx) ...)`
 `(trace <stmt> (<bindings>) ((site mask) ...))` → `((r x i j) (w x i j) ...)`: events of `execT` from the
 store given by the bindings; the callee at call site `site` stores `old+1` into its p-th by-reference argument
-iff bit p of `mask` is set (sites not listed: every argument). -/
+iff bit p of `mask` is set (sites not listed: every argument).  `(call p m f args..)`: `m` = `n` (callee definition
+not available) or the mask of its non-INTENT(IN) dummies.  DO WHILE loops are traced for at most 3 iterations. -/
 
 def spineOf : List C11.Expr → C11.Expr
   | [] => .nil
@@ -44,7 +45,11 @@ partial def parseS : Sexp → Option C11.Stmt
   | .list [.atom "ite", c, t, f] => do some (.ite (← parseE c) (← parseS t) (← parseS f))
   | .list [.atom "loop", v, lo, hi, st, b] => do
       some (.loop (← v.nat?) (← parseE lo) (← parseE hi) (← parseE st) (← parseS b))
-  | .list (.atom "call" :: p :: f :: es) => do some (.call (← boolOf p) (← f.nat?) (spineOf (← es.mapM parseE)))
+  | .list [.atom "while", c, b] => do some (.while (← parseE c) (← parseS b))
+  | .list [.atom "ret"] => some .ret
+  | .list [.atom "opaque", f, ns, rd, wr] => do some (.opaque (← f.nat?) ns.natList rd.natList wr.natList)
+  | .list (.atom "call" :: p :: m :: f :: es) => do
+      some (.call (← boolOf p) m.nat? (← f.nat?) (spineOf (← es.mapM parseE)))
   | .list (.atom "icall" :: k :: f :: es) => do some (.icall (← k.nat?) (← f.nat?) (spineOf (← es.mapM parseE)))
   | _ => none
 
@@ -55,6 +60,8 @@ def showAcc (a : Access) : String := s!"({a.var} {kindStr a.kind} {a.loc} {a.nid
 
 def ruleOf : String → Option Rule
   | "pinned" => some pinnedRule
+  | "fixed1" => some fixed1Rule
+  | "fixed3" => some fixed3Rule
   | "fixed" => some fixedRule
   | "ideal" => some idealRule
   | _ => none
@@ -71,6 +78,7 @@ def oracleOf (masks : List (Nat × Nat)) : Oracle where
       | some (_, m) => m
       | none => 2 ^ 62 - 1
     if (m / 2 ^ p) % 2 == 1 then some (C11.nth vs p + 1) else none
+  fuel := 3
 
 @[noinline] def showTrace (q : MiniF.Store × List Event) : String :=
   "(" ++ " ".intercalate (q.2.map showEvent) ++ ")"
